@@ -1,13 +1,50 @@
 import CssVerif.Lemmas.SerCost
+import CssVerif.Props.C05
+import CssVerif.Props.C04
 /-!
 # C01 — parsing any input returns a DOM: never raises, never hangs
 
-Cost clause for serialisation. (The totality theorems of the tokenizer and of the structure kernel are added
-to this file as those kernels are merged; the never-raises clause of the whole parser is decided by
-exploration of the implementation, see tools/harness/c01.py and DESIGN.md.)
+Three layers are proved here: (1) the tokenizer model never spins, never raises and needs no fuel, for every
+text (from the generated productions being non-nullable with CHAR / INVALID as catch-all); (2) the structure
+kernel's token collector `_tokensupto2` and the nested-@media recursion always terminate and neither lose nor
+invent tokens; (3) the cost of serialising a value is linear in its size. The never-raises clause of the WHOLE
+parser (selectors, values, DOM construction) is decided by exploration of the implementation, see
+tools/harness/c01.py and DESIGN.md.
 -/
 namespace CssVerif.C01
 open CssVerif.SerCost
+
+/-- T1.1 the tokenizer terminates regularly on EVERY text, in both modes, with comments kept or dropped: it never
+finds itself without a matching production, never makes an empty step, never raises (`found[0]`, `int()`), and the
+model's fuel is never used up. (Model: `Model/Tok.lean`, tied to `tokenize2.py` by the C05 correspondence; productions
+regenerated from `cssproductions.py` on every run.) -/
+theorem tokenizer_total (text : Proto.Cps) (fullsheet doComments : Bool) :
+    ∃ line col, (Tok.tokenize text fullsheet doComments).stop = .done line col :=
+  C05.tokenize_total text fullsheet doComments
+
+/-- … because no production can match the empty string -/
+theorem tokenizer_always_advances : ∀ p ∈ Gen.C05.productions, p.2.nonNullable = true :=
+  C05.productions_nonNullable
+
+/-- … and what it reads is exactly the input: nothing is skipped, nothing is read twice -/
+theorem tokenizer_reads_everything_once (text : Proto.Cps) (fullsheet doComments : Bool) :
+    Tok.spans (Tok.tokenize text fullsheet doComments).items = text :=
+  C05.spans_tile text fullsheet doComments
+
+/-- T1.2 `_tokensupto2` (the collector every statement / declaration / value parser is built on) is total and
+hands back every token exactly once: collected ++ left-over = input, for every mode and every token list. Every
+parser loop of the structure kernel is therefore a recursion on a strictly shorter list (the Lean definitions are
+accepted without fuel). -/
+theorem upto_total_consumes (m : Struct.Mode) (ts : List Struct.Tok) :
+    (Struct.upto m none ts).1 ++ (Struct.upto m none ts).2 = ts :=
+  Props.C04.upto_splits m ts
+
+/-- the only fuelled recursion of the structure kernel, `@media` nested in `@media`, never runs out of fuel and
+its result does not depend on the amount -/
+theorem nested_media_needs_no_fuel (O : Struct.Oracle) (ns : List (Proto.Cps × Proto.Cps)) (f₁ f₂ : Nat)
+    (ts : List Struct.Tok) (h1 : ts.length < f₁) (h2 : ts.length < f₂) :
+    Struct.mediaRule O ns f₁ ts = Struct.mediaRule O ns f₂ ts ∧ Struct.mediaRule O ns f₁ ts ≠ none :=
+  Props.C04.media_fuel_irrelevant O ns f₁ f₂ ts h1 h2
 
 /-- T1.6 with the repaired serializer (one evaluation of a child's `cssText` per append) the number of
 serializer entries equals the number of function nodes of the value — linear, for EVERY value tree. -/
